@@ -138,7 +138,8 @@ def _feed_fifo(path, data):
 				os.close(fd)
 		except OSError:
 			pass
-	threading.Thread(target=feeder, daemon=True).start()
+	from . import escape
+	escape.own_thread(target=feeder, daemon=True).start()
 
 
 def install():
